@@ -446,10 +446,57 @@ theorem toInt?_none_of_bad_char (s : String) (c : Char) (hc : c ∈ s.toList)
         · rw [h1] at h; cases h
         · exact h2 h
 
+/-- `goDecInt` on a text without `+` / `_` is `toInt?` -/
+theorem goDecInt_eq_toInt? (s : String) (hp : ∀ cs, s.toList ≠ '+' :: cs) (hu : '_' ∉ s.toList) :
+    goDecInt s = s.toInt? := by
+  unfold goDecInt
+  split
+  · rename_i rest h; exact absurd h (hp rest)
+  · rename_i cs _
+    have : s.toList.any (· == '_') = false := by
+      rw [List.any_eq_false]
+      intro c hc
+      simp only [beq_iff_eq]
+      intro e; subst e; exact hu hc
+    rw [this]; rfl
+
+theorem goDecInt_toString (i : Int) : goDecInt (toString i) = some i := by
+  obtain ⟨c, cs, h, hc, hcs⟩ := int_toString_shape i
+  rw [goDecInt_eq_toInt?, int_toString_toInt]
+  · intro cs' h'
+    rw [h] at h'
+    injection h' with h1 _
+    subst h1
+    rcases hc with hc | hc <;> (revert hc; decide)
+  · rw [h]
+    intro hm
+    rcases List.mem_cons.1 hm with e | hm
+    · subst e; rcases hc with hc | hc <;> (revert hc; decide)
+    · have := hcs _ hm; revert this; decide
+
+/-- a character that is neither a digit, a sign nor `_` makes a text a non-integer for Go as well -/
+theorem goDecInt_none_of_bad_char (s : String) (c : Char) (hc : c ∈ s.toList)
+    (h1 : c.isDigit = false) (h2 : c ≠ '_') (h3 : c ≠ '-') (h4 : c ≠ '+') : goDecInt s = none := by
+  unfold goDecInt
+  split
+  · rename_i rest h
+    have hc' : c ∈ rest := by
+      rw [h] at hc
+      rcases List.mem_cons.1 hc with e | hc
+      · exact absurd e h4
+      · exact hc
+    have : rest.all Char.isDigit = false := by
+      rw [List.all_eq_false]
+      exact ⟨c, hc', by simp [h1]⟩
+    simp [this]
+  · split
+    · rfl
+    · exact toInt?_none_of_bad_char s c hc h1 h2 h3
+
 theorem parseInt64_none_of_bad_char (s : String) (c : Char) (hc : c ∈ s.toList)
-    (h1 : c.isDigit = false) (h2 : c ≠ '_') (h3 : c ≠ '-') : parseInt64 s = none := by
+    (h1 : c.isDigit = false) (h2 : c ≠ '_') (h3 : c ≠ '-') (h4 : c ≠ '+') : parseInt64 s = none := by
   unfold parseInt64
-  rw [toInt?_none_of_bad_char s c hc h1 h2 h3]
+  rw [goDecInt_none_of_bad_char s c hc h1 h2 h3 h4]
 
 /-! ## a toy single-document codec (integers as decimal text) meeting the hypotheses -/
 
@@ -672,13 +719,13 @@ theorem cliRun_no_inputs (fs : FS) (cwd : Comps) (env : Vars) (opts : CliOpts)
 theorem parseInt64_toString (n : Int) (h1 : int64Min ≤ n) (h2 : n ≤ int64Max) :
     parseInt64 (toString n) = some n := by
   unfold parseInt64
-  rw [int_toString_toInt, int_toString_no_plus]
+  rw [goDecInt_toString]
   simp [h1, h2]
 
 theorem parseInt64_some {s : String} {i : Int} (h : parseInt64 s = some i) :
-    s.toInt? = some i ∧ int64Min ≤ i ∧ i ≤ int64Max := by
+    goDecInt s = some i ∧ int64Min ≤ i ∧ i ≤ int64Max := by
   unfold parseInt64 at h
-  cases ht : s.toInt? with
+  cases ht : goDecInt s with
   | none => rw [ht] at h; cases h
   | some j =>
     rw [ht] at h
@@ -686,20 +733,20 @@ theorem parseInt64_some {s : String} {i : Int} (h : parseInt64 s = some i) :
     split at h
     · rename_i hc
       cases h
-      exact ⟨rfl, hc.1, hc.2.1⟩
+      exact ⟨rfl, hc.1, hc.2⟩
     · cases h
 
 theorem parseGoInt_toString (n : Int) (bits : Nat) :
     parseGoInt (toString n) bits =
       if -(2 ^ (bits - 1) : Int) ≤ n ∧ n < (2 ^ (bits - 1) : Int) then some n else none := by
   unfold parseGoInt
-  rw [int_toString_toInt]
+  rw [goDecInt_toString]
 
 theorem normalize_jnum (text fr : String) :
     normalize (.jnum text fr) =
       match parseInt64 text with
       | some i => .ok (.int i)
-      | none => .ok (.flt fr) := by
+      | none => if fr.isEmpty then .error .other else .ok (.flt fr) := by
   rw [normalize]; rfl
 
 theorem yamlScalar_int (value fr : String) :
@@ -714,16 +761,18 @@ theorem yamlScalar_int (value fr : String) :
   rfl
 
 theorem yamlScalar_float (value fr : String) :
-    yamlScalar "!!float" value fr = .ok (.goFloat fr) := by
+    yamlScalar "!!float" value fr = if fr.isEmpty then .error .other else .ok (.goFloat fr) := by
   unfold yamlScalar
   rfl
 
 
-/-! ## `normalize` fails exactly on `map[any]any` -/
+/-! ## `normalize` fails exactly on `map[any]any` and on numbers no float64 can hold -/
 
 mutual
-/-- does the decoder output contain a `map[any]any` (a mapping with a non-string key)? -/
+/-- does the decoder output contain a `map[any]any` (a mapping with a non-string key), or a JSON
+    number that is neither an int64 nor convertible to float64 (`floatRepr = ""`, e.g. `1e400`)? -/
 def hasMapAny : Raw → Bool
+  | .jnum text fr => (parseInt64 text).isNone && fr.isEmpty
   | .list xs => hasMapAnyList xs
   | .map kvs => hasMapAnyFields kvs
   | .listOfMaps ms => hasMapAnyMaps ms
@@ -742,7 +791,7 @@ end
 
 /-- the two possible outcomes of a normalisation -/
 def NormOutcome {α : Type} (b : Bool) (r : R α) : Prop :=
-  (b = true ∧ r = .error .invalidType) ∨ (b = false ∧ ∃ v, r = .ok v)
+  (b = true ∧ (r = .error .invalidType ∨ r = .error .other)) ∨ (b = false ∧ ∃ v, r = .ok v)
 
 theorem NormOutcome.ok {α : Type} {r : R α} (v : α) (h : r = .ok v) : NormOutcome false r :=
   Or.inr ⟨rfl, v, h⟩
@@ -750,16 +799,19 @@ theorem NormOutcome.ok {α : Type} {r : R α} (v : α) (h : r = .ok v) : NormOut
 theorem normOutcome_bind2 {α β γ : Type} {b1 b2 : Bool} {r1 : R α} {r2 : R β} (f : α → β → γ)
     (h1 : NormOutcome b1 r1) (h2 : NormOutcome b2 r2) :
     NormOutcome (b1 || b2) (do let a ← r1; let b ← r2; pure (f a b)) := by
-  rcases h1 with ⟨rfl, rfl⟩ | ⟨rfl, a, rfl⟩
-  · exact Or.inl ⟨rfl, rfl⟩
-  · rcases h2 with ⟨rfl, rfl⟩ | ⟨rfl, b, rfl⟩
-    · exact Or.inl ⟨rfl, rfl⟩
+  rcases h1 with ⟨rfl, rfl | rfl⟩ | ⟨rfl, a, rfl⟩
+  · exact Or.inl ⟨rfl, Or.inl rfl⟩
+  · exact Or.inl ⟨rfl, Or.inr rfl⟩
+  · rcases h2 with ⟨rfl, rfl | rfl⟩ | ⟨rfl, b, rfl⟩
+    · exact Or.inl ⟨rfl, Or.inl rfl⟩
+    · exact Or.inl ⟨rfl, Or.inr rfl⟩
     · exact Or.inr ⟨rfl, f a b, rfl⟩
 
 theorem normOutcome_map {α β : Type} {b : Bool} {r : R α} (f : α → β) (h : NormOutcome b r) :
     NormOutcome b (do let a ← r; pure (f a)) := by
-  rcases h with ⟨rfl, rfl⟩ | ⟨rfl, a, rfl⟩
-  · exact Or.inl ⟨rfl, rfl⟩
+  rcases h with ⟨rfl, rfl | rfl⟩ | ⟨rfl, a, rfl⟩
+  · exact Or.inl ⟨rfl, Or.inl rfl⟩
+  · exact Or.inl ⟨rfl, Or.inr rfl⟩
   · exact Or.inr ⟨rfl, f a, rfl⟩
 
 mutual
@@ -771,11 +823,13 @@ theorem normalize_outcome : ∀ (r : Raw), NormOutcome (hasMapAny r) (normalize 
   | .goFloat _ => .ok _ (by rw [normalize]; rfl)
   | .str _ => .ok _ (by rw [normalize]; rfl)
   | .jnum text fr => by
-    rw [normalize]
-    show NormOutcome false _
+    rw [normalize_jnum, hasMapAny]
     cases parseInt64 text with
-    | none => exact .ok _ rfl
     | some i => exact .ok _ rfl
+    | none =>
+      cases hf : fr.isEmpty with
+      | true => exact Or.inl ⟨rfl, Or.inr (by simp)⟩
+      | false => exact Or.inr ⟨rfl, .flt fr, by simp⟩
   | .list xs => by
     rw [normalize, hasMapAny]
     exact normOutcome_map _ (normalizeList_outcome xs)
@@ -785,7 +839,7 @@ theorem normalize_outcome : ∀ (r : Raw), NormOutcome (hasMapAny r) (normalize 
   | .listOfMaps ms => by
     rw [normalize, hasMapAny]
     exact normOutcome_map _ (normalizeMaps_outcome ms)
-  | .mapAny => Or.inl ⟨rfl, by rw [normalize]; rfl⟩
+  | .mapAny => Or.inl ⟨rfl, Or.inl (by rw [normalize]; rfl)⟩
 theorem normalizeList_outcome : ∀ (xs : List Raw),
     NormOutcome (hasMapAnyList xs) (normalizeList xs)
   | [] => .ok _ (by rw [normalizeList]; rfl)
@@ -836,49 +890,52 @@ theorem normalizeFields_keys : ∀ (kvs : List (String × Raw)) (fs : Fields),
         cases h
         simp only [List.map_cons, normalizeFields_keys rest b hr]
 
-/-- a normalisation either fails with `invalidType` or succeeds -/
-theorem normalize_cases (r : Raw) : normalize r = .error .invalidType ∨ ∃ v, normalize r = .ok v := by
-  rcases normalize_outcome r with ⟨_, h⟩ | ⟨_, h⟩
-  · exact Or.inl h
+/-- a normalisation either fails or succeeds -/
+theorem normalize_cases (r : Raw) : (∃ e, normalize r = .error e) ∨ ∃ v, normalize r = .ok v := by
+  rcases normalize_outcome r with ⟨_, h | h⟩ | ⟨_, h⟩
+  · exact Or.inl ⟨_, h⟩
+  · exact Or.inl ⟨_, h⟩
   · exact Or.inr h
 
 theorem normalizeFields_cases (kvs : List (String × Raw)) :
-    normalizeFields kvs = .error .invalidType ∨ ∃ v, normalizeFields kvs = .ok v := by
-  rcases normalizeFields_outcome kvs with ⟨_, h⟩ | ⟨_, h⟩
-  · exact Or.inl h
+    (∃ e, normalizeFields kvs = .error e) ∨ ∃ v, normalizeFields kvs = .ok v := by
+  rcases normalizeFields_outcome kvs with ⟨_, h | h⟩ | ⟨_, h⟩
+  · exact Or.inl ⟨_, h⟩
+  · exact Or.inl ⟨_, h⟩
   · exact Or.inr h
 
-/-- permuting the entries: both fail (with the only possible error), or both succeed with
+/-- permuting the entries: both fail (which of the two possible errors is met first may depend on the
+    order, exactly as in Go where the decoder's map is walked in random order), or both succeed with
     permuted results -/
 theorem normalizeFields_perm {l' l : List (String × Raw)} (hp : l'.Perm l) :
-    (normalizeFields l' = .error .invalidType ∧ normalizeFields l = .error .invalidType) ∨
+    (∃ e' e, normalizeFields l' = .error e' ∧ normalizeFields l = .error e) ∨
     (∃ fs' fs, normalizeFields l' = .ok fs' ∧ normalizeFields l = .ok fs ∧ fs'.Perm fs) := by
   induction hp with
   | nil => exact Or.inr ⟨[], [], normalizeFields_nil, normalizeFields_nil, .nil⟩
   | cons x _ ih =>
     obtain ⟨k, v⟩ := x
     rw [normalizeFields_cons, normalizeFields_cons]
-    rcases normalize_cases v with hv | ⟨a, hv⟩
-    · rw [hv]; exact Or.inl ⟨rfl, rfl⟩
+    rcases normalize_cases v with ⟨e, hv⟩ | ⟨a, hv⟩
+    · rw [hv]; exact Or.inl ⟨_, _, rfl, rfl⟩
     · rw [hv]
-      rcases ih with ⟨h1, h2⟩ | ⟨fs', fs, h1, h2, h3⟩
-      · rw [h1, h2]; exact Or.inl ⟨rfl, rfl⟩
+      rcases ih with ⟨e1, e2, h1, h2⟩ | ⟨fs', fs, h1, h2, h3⟩
+      · rw [h1, h2]; exact Or.inl ⟨_, _, rfl, rfl⟩
       · rw [h1, h2]; exact Or.inr ⟨_, _, rfl, rfl, h3.cons _⟩
   | swap x y l =>
     obtain ⟨kx, vx⟩ := x
     obtain ⟨ky, vy⟩ := y
     simp only [normalizeFields_cons]
-    rcases normalize_cases vx with hx | ⟨a, hx⟩ <;> rcases normalize_cases vy with hy | ⟨b, hy⟩ <;>
-      rcases normalizeFields_cases l with hl | ⟨c, hl⟩ <;> rw [hx, hy, hl]
+    rcases normalize_cases vx with ⟨ex, hx⟩ | ⟨a, hx⟩ <;> rcases normalize_cases vy with ⟨ey, hy⟩ | ⟨b, hy⟩ <;>
+      rcases normalizeFields_cases l with ⟨el, hl⟩ | ⟨c, hl⟩ <;> rw [hx, hy, hl]
     all_goals first
-      | exact Or.inl ⟨rfl, rfl⟩
+      | exact Or.inl ⟨_, _, rfl, rfl⟩
       | exact Or.inr ⟨_, _, rfl, rfl, .swap _ _ _⟩
   | trans _ _ ih1 ih2 =>
-    rcases ih1 with ⟨h1, h2⟩ | ⟨fs1, fs2, h1, h2, h3⟩
-    · rcases ih2 with ⟨h4, h5⟩ | ⟨fs3, fs4, h4, h5, h6⟩
-      · exact Or.inl ⟨h1, h5⟩
+    rcases ih1 with ⟨e1, e2, h1, h2⟩ | ⟨fs1, fs2, h1, h2, h3⟩
+    · rcases ih2 with ⟨e3, e4, h4, h5⟩ | ⟨fs3, fs4, h4, h5, h6⟩
+      · exact Or.inl ⟨_, _, h1, h5⟩
       · rw [h2] at h4; cases h4
-    · rcases ih2 with ⟨h4, h5⟩ | ⟨fs3, fs4, h4, h5, h6⟩
+    · rcases ih2 with ⟨e3, e4, h4, h5⟩ | ⟨fs3, fs4, h4, h5, h6⟩
       · rw [h2] at h4; cases h4
       · rw [h2] at h4; cases h4
         exact Or.inr ⟨fs1, fs4, h1, h5, h3.trans h6⟩
@@ -888,15 +945,18 @@ theorem normalize_map (kvs : List (String × Raw)) :
   rw [normalize]
 
 theorem normalize_map_perm {kvs' kvs : List (String × Raw)} (hp : kvs'.Perm kvs)
-    (hn : (kvs.map (·.1)).Nodup) : normalize (.map kvs') = normalize (.map kvs) := by
+    (hn : (kvs.map (·.1)).Nodup) :
+    (∃ e' e, normalize (.map kvs') = .error e' ∧ normalize (.map kvs) = .error e) ∨
+    (∃ v, normalize (.map kvs') = .ok v ∧ normalize (.map kvs) = .ok v) := by
   rw [normalize_map, normalize_map]
-  rcases normalizeFields_perm hp with ⟨h1, h2⟩ | ⟨fs', fs, h1, h2, h3⟩
-  · rw [h1, h2]
+  rcases normalizeFields_perm hp with ⟨e', e, h1, h2⟩ | ⟨fs', fs, h1, h2, h3⟩
+  · rw [h1, h2]; exact Or.inl ⟨_, _, rfl, rfl⟩
   · rw [h1, h2, s_bind_ok, s_bind_ok]
     have hd : Fields.DistinctKeys fs := by
       unfold Fields.DistinctKeys
       rw [normalizeFields_keys kvs fs h2]; exact hn
     rw [fofList_perm hd h3]
+    exact Or.inr ⟨_, rfl, rfl⟩
 
 /-! ## go-toml arrays of tables -/
 
